@@ -295,7 +295,9 @@ func (g *G) inline(c ictx, first bool) Inline {
 			if first || c.noRaw {
 				continue
 			}
-			raws := []string{"<b>", "</b>", "<span class=\"x y\">", "<i data-a='b'>", "<br/>", "<x-y z>", "<!-- c -->", "<?p q?>", "<![CDATA[a]]>", "<!DOCTYPE x>", "<a\nhref=\"u\">"}
+			raws := []string{"<b>", "</b>", "<span class=\"x y\">", "<i data-a='b'>", "<br/>", "<x-y z>", "<!-- c -->", "<?p q?>", "<![CDATA[a]]>", "<!DOCTYPE x>", "<a\nhref=\"u\">",
+				// raw HTML that runs over two or three lines (every line of it is part of the node)
+				"<!-- c\nd -->", "<!-- c\nd\ne -->", "<?p\nq?>", "<![CDATA[a\nb]]>", "<!X\ny>", "<i\ndata-a='b'\nclass=\"c\">"}
 			r := raws[g.s.Intn(len(raws))]
 			if c.oneLine && strings.Contains(r, "\n") {
 				continue
